@@ -509,7 +509,11 @@ pub enum WatchLayout {
     Absolute,
     /// src/vendor is a symbolic link to <cwd>/vendor_real
     Linked,
+    /// `darklua process src src --watch`: every source is replaced by its output (no bundling)
+    InPlace,
 }
+
+const INPLACE_CONFIGS: [&str; 2] = ["{rules: ['remove_comments']}", "{rules: ['remove_comments', 'remove_empty_do'], generator: 'dense'}"];
 
 const WATCH_EVENTS: &[WatchEvent] = &[
     WatchEvent::MainWithDependency,
@@ -530,25 +534,26 @@ fn watch_binary() -> Result<PathBuf, String> {
     crate::dl::darklua_binary()
 }
 
-fn expected_outputs(files: &BTreeMap<String, String>) -> BTreeMap<String, String> {
+fn expected_outputs(files: &BTreeMap<String, String>, in_place: bool) -> BTreeMap<String, String> {
     let r = Resources::from_memory();
     for (p, c) in files {
         let _ = r.write(p, c);
     }
     let res = r.clone();
-    let _ = guarded(move || darklua_core::process(&res, Options::new("src").with_output("out").with_configuration_at(".darklua.json")));
+    let options = Options::new("src").with_output(if in_place { "src" } else { "out" });
+    let _ = guarded(move || darklua_core::process(&res, options.with_configuration_at(".darklua.json")));
     let mut m = BTreeMap::new();
-    for p in r.walk("out") {
+    for p in r.walk(if in_place { "src" } else { "out" }) {
         let k = p.to_string_lossy().replace('\\', "/");
         m.insert(k, r.get(&p).unwrap_or_default());
     }
     m
 }
 
-fn disk_outputs(root: &std::path::Path) -> BTreeMap<String, String> {
+fn disk_outputs(root: &std::path::Path, in_place: bool) -> BTreeMap<String, String> {
     let store = Store { res: Resources::from_file_system(), root: Some(root.to_path_buf()) };
     let mut m = BTreeMap::new();
-    for p in store.walk("out") {
+    for p in store.walk(if in_place { "src" } else { "out" }) {
         let c = store.get(&p).unwrap_or_default();
         m.insert(p, c);
     }
@@ -574,7 +579,13 @@ fn run_watch_history(binary: &std::path::Path, layout: WatchLayout, history: &[W
     files.insert("src/b.lua".into(), "-- b\nreturn 'b0'\n".into());
     files.insert("src/vendor/a.lua".into(), "-- va\nreturn 'va0'\n".into());
     files.insert("src/vendor/b.lua".into(), "-- vb\nreturn 'vb0'\n".into());
-    files.insert(".darklua.json".into(), WATCH_CONFIGS[0].into());
+    let in_place = layout == WatchLayout::InPlace;
+    let configs: [&str; 2] = if in_place { INPLACE_CONFIGS } else { WATCH_CONFIGS };
+    if in_place {
+        // no bundling in place (its own known finding): the entry point does not require anything
+        files.insert("src/main.lua".into(), "-- main 0\ndo end\nreturn 'alone'\n".into());
+    }
+    files.insert(".darklua.json".into(), configs[0].into());
     for (p, c) in &files {
         let full = physical(p);
         std::fs::create_dir_all(full.parent().unwrap()).map_err(|e| e.to_string())?;
@@ -585,6 +596,7 @@ fn run_watch_history(binary: &std::path::Path, layout: WatchLayout, history: &[W
     }
     let args: Vec<std::ffi::OsString> = match layout {
         WatchLayout::Absolute => vec!["process".into(), root.join("src").into_os_string(), root.join("out").into_os_string(), "--watch".into()],
+        WatchLayout::InPlace => vec!["process".into(), "src".into(), "src".into(), "--watch".into()],
         _ => vec!["process".into(), "src".into(), "out".into(), "--watch".into()],
     };
     let mut child = std::process::Command::new(binary)
@@ -596,11 +608,11 @@ fn run_watch_history(binary: &std::path::Path, layout: WatchLayout, history: &[W
         .spawn()
         .map_err(|e| format!("cannot start the watcher: {}", e))?;
     let wait_for = |files: &BTreeMap<String, String>, what: &str| -> Option<String> {
-        let want = expected_outputs(files);
+        let want = expected_outputs(files, in_place);
         let start = std::time::Instant::now();
         let mut stable_since: Option<std::time::Instant> = None;
         loop {
-            let got = disk_outputs(root);
+            let got = disk_outputs(root, in_place);
             if got == want {
                 // the outputs must also stay that way for a moment (a late pass must not undo them)
                 match stable_since {
@@ -626,6 +638,11 @@ fn run_watch_history(binary: &std::path::Path, layout: WatchLayout, history: &[W
     let mut version = 0;
     let mut config = 0;
     let mut result = wait_for(&files, "the initial run");
+    if result.is_none() && in_place {
+        for (p, c) in expected_outputs(&files, true) {
+            files.insert(p, c);
+        }
+    }
     if result.is_none() {
         // let the watcher finish registering its watches before the first event
         std::thread::sleep(std::time::Duration::from_millis(300));
@@ -641,7 +658,7 @@ fn run_watch_history(binary: &std::path::Path, layout: WatchLayout, history: &[W
                 WatchEvent::RemoveLinked => ("src/vendor/a.lua", None),
                 WatchEvent::ToggleConfig => {
                     config = 1 - config;
-                    (".darklua.json", Some(WATCH_CONFIGS[config].to_owned()))
+                    (".darklua.json", Some(configs[config].to_owned()))
                 }
             };
             match content {
@@ -664,6 +681,30 @@ fn run_watch_history(binary: &std::path::Path, layout: WatchLayout, history: &[W
                 result = Some(problem);
                 break;
             }
+            if in_place {
+                // the sources now hold their outputs
+                for (p, c) in expected_outputs(&files, true) {
+                    files.insert(p, c);
+                }
+                // "no history makes the worker loop": once the outputs are right the watcher must go quiet. Its own writes
+                // wake it up once more; the files must stop being rewritten
+                std::thread::sleep(std::time::Duration::from_millis(1500));
+                let stamp = |root: &std::path::Path| -> Vec<Option<std::time::SystemTime>> { files.keys().map(|p| std::fs::metadata(root.join(p)).and_then(|m| m.modified()).ok()).collect() };
+                let mut last = stamp(root);
+                let mut rewrites = 0;
+                for _ in 0..25 {
+                    std::thread::sleep(std::time::Duration::from_millis(100));
+                    let now = stamp(root);
+                    if now != last {
+                        rewrites += 1;
+                        last = now;
+                    }
+                }
+                if rewrites >= 3 {
+                    result = Some(format!("after event {} ({:?}) the outputs are right but the watcher keeps rewriting the sources ({} rewrites observed in 2.5 s, 1.5 s after the outputs were right)", i + 1, ev, rewrites));
+                    break;
+                }
+            }
         }
     }
     let _ = child.kill();
@@ -681,6 +722,13 @@ fn watch_histories(tier: Tier) -> Vec<(WatchLayout, Vec<WatchEvent>)> {
             out.extend(seqs.iter().cloned().map(|h| (layout, h)));
         }
         out.push((layout, vec![WatchEvent::RemoveLinked, WatchEvent::EditPlain, WatchEvent::CreateLinked]));
+    }
+    // in place: the events that do not concern bundling, every sequence up to length 1 (2 thorough)
+    let plain = [WatchEvent::EditPlain, WatchEvent::RemovePlain, WatchEvent::CreatePlain, WatchEvent::ToggleConfig, WatchEvent::EditLinked];
+    let mut seqs: Vec<Vec<WatchEvent>> = vec![vec![]];
+    for _ in 0..tier.pick(1, 2) {
+        seqs = seqs.iter().flat_map(|s| plain.iter().map(move |e| { let mut t = s.clone(); t.push(*e); t })).collect();
+        out.extend(seqs.iter().cloned().map(|h| (WatchLayout::InPlace, h)));
     }
     out
 }
@@ -1070,7 +1118,7 @@ pub fn run(tier: Tier) -> Report {
         over the same inputs, configuration and foreign files"
         .to_owned();
     report.assumptions = vec![
-        "the explicit-state search starts at the WorkerTree calls FileWatcher::process_events makes; the layer above (notify events, debouncing, watching of dependencies outside the input) is exercised by a smaller exhaustive set of histories against the real `darklua process --watch` binary on a temporary directory, where a failure is reported only if it happens twice, in three layouts: relative paths, absolute input and output paths, and a source directory that is a symbolic link (absolute target) to a directory outside the input; relative link targets and links to single files are not exercised".to_owned(),
+        "the explicit-state search starts at the WorkerTree calls FileWatcher::process_events makes; the layer above (notify events, debouncing, watching of dependencies outside the input) is exercised by a smaller exhaustive set of histories against the real `darklua process --watch` binary on a temporary directory, where a failure is reported only if it happens twice, in four layouts: relative paths, absolute input and output paths, in place (`process src src`, no bundling; the sources must also stop being rewritten once they are right), and a source directory that is a symbolic link (absolute target) to a directory outside the input; relative link targets and links to single files are not exercised".to_owned(),
         "a source that fails in the fresh run may keep a stale output; only the presence of an error for it is required".to_owned(),
         "every history is run on in-memory resources and again in a temporary directory on the real file system (where emptied output directories are pruned)".to_owned(),
     ];
